@@ -2,6 +2,7 @@
 (spec/PersistFmt.tla + Persist.tla + PersistCkpt.tla, harness/c05_persist.cpp)"""
 import os, json
 import vlib
+import c05x
 
 LEVEL = "model_checking"
 
@@ -139,7 +140,10 @@ def run(chk):
         raise vlib.MachineryError("binding defect: %d cases where the real container state is not the state the specification assumes, e.g. %s: %s"
                                   % (len(pre), json.dumps(sig(c, r)), r.get("why")))
     vlib.judge_results(chk, cases, res, sig, keyf=key, harness="c05_persist", nontrivial=nontrivial)
-    chk.traces = len(cases)
+    # extension (lib/c05x.py): FEAT::Pack byte images, DistFileIO (serial + 1..4 MPI ranks), CheckpointControl through files,
+    # file-name overloads of the containers
+    next_ = c05x.run_ext(chk)
+    chk.traces = len(cases) + next_
     chk.exhaustive = True
     nio = sum(1 for c in cases if c["part"] == "io")
     chk.extra["io_behaviours"] = nio
@@ -159,7 +163,7 @@ def run(chk):
                 "identifiers that are prefixes of each other, every restore order.  spec/PersistStream.tla: every history of 5 (thorough 6) calls "
                 "write / seekg(0) / read / clear / checkpoint save / checkpoint load on ONE reused BinaryStream object (3 containers, 2 checkpoint "
                 "object sets), size, position and segment bytes compared after every call; non-trivial = container with at least one array resp. >=2 objects; "
-                "distinct = distinct (container, mode, types) resp. (registration sequence, restore sequence)")
+                "distinct = distinct (container, mode, types) resp. (registration sequence, restore sequence).  Extension: " + c05x.RULE)
     for c in [x for x in cases if x["part"] == "io"][::max(1, nio // 3)][:3] + [x for x in cases if x["part"] == "ckpt"][-1:]:
         if c["part"] == "stream":
             continue
@@ -172,13 +176,18 @@ def run(chk):
         chk.sample({"stream_history": [(o["op"], o["arg"], o["size"], o["pos"]) for o in c["ops"]]})
     chk.assumptions = ["values are dyadic (numerators over 4): general decimal rounding of the text formats is not explored (DESIGN.md sec. 7 residue)",
                        "zlib/zfp compression modes are compiled out of the baseline build and out of scope",
-                       "files are std::stringstream / std::vector<char> / BinaryStream; the filename overloads (which only open a stream) and "
-                       "DistFileIO (MPI) are not exercised",
+                       "container round trips go through std::stringstream / std::vector<char> / BinaryStream; the file-name overloads are sampled",
                        "BCSR has no MatrixMarket reader: its MatrixMarket output is read back through the CSR reader",
-                       "containers are built through the raw-array constructors (canonical sorted arrays, allocated == used for sparse vectors)"]
+                       "containers are built through the raw-array constructors (canonical sorted arrays, allocated == used for sparse vectors)"] + list(c05x.ASSUMPTIONS)
 
 
 def replay(obj):
+    ext = [v for v in obj["violations"] if v.get("replay") and str(v["replay"].get("harness", "")).startswith("c05x")]
+    if ext:
+        import importlib.util
+        sp = importlib.util.spec_from_file_location("check_C05x", os.path.join(vlib.VERIF, "checks", "C05x.py"))
+        m = importlib.util.module_from_spec(sp); sp.loader.exec_module(m)
+        return m.replay({"violations": ext})
     binary, = vlib.build(["c05_persist"])
     cases = [v["replay"]["case"] for v in obj["violations"] if v["replay"] and v["replay"].get("kind") == "case"]
     res = vlib.run_cases(binary, cases, tmo=20, shards=1)
